@@ -82,6 +82,16 @@ class Facts:
             out.append(b)
         return out
 
+    def traits_by_path(self):
+        """paths of the traits that methods in the facts belong to (declared or implemented)"""
+        if not hasattr(self, "_traits"):
+            self._traits = set()
+            for b in self.bodies.values():
+                for k in ("impl_trait", "in_trait"):
+                    if b.get(k):
+                        self._traits.add(b[k])
+        return self._traits
+
     def impl_method(self, trait, adt, name):
         key = (trait, adt, name)
         if not hasattr(self, "_impl_idx"):
